@@ -19,6 +19,8 @@ POOL = {
     # U+FFFD is a character like any other; surrogates and out-of-range values have no character literal
     "replacement": G % "replacement" + 'RC = /[\\xFFFC-\\xFFFD]+/;\nTXT = /"[a-z\\xFFFD]*"/;\nstart = {RC | TXT};\n',
     "surrogates": G % "surrogates" + 'SG = /[\\xD7FE-\\xD802]+/;\nNG = /a\\xFFFFFFFF/;\nID = /[a-z]+/;\nstart = {SG | NG | ID};\n',
+    # several symbol lists that differ only in code points without a character literal (one surrogate each, an out-of-range value)
+    "surrogates2": G % "surrogates2" + 'TA = /a[\\xD800]/;\nTB = /b[\\xD801]/;\nTC = /c[\\xDFFF]x/;\nTD = /d\\x110000/;\nstart = {TA | TB | TC | TD};\n',
     # terminals owning exactly 16 / 32 / 17 accepting states (line-wrapped state lists)
     "sixteen": G % "sixteen" + 'AS = /a{1,16}/;\nCS = /c{1,17}/;\nstart = {AS | CS};\n',
     "thirtytwo": G % "thirtytwo" + 'BS = /b{1,32}/;\nstart = {BS | "x"};\n',
